@@ -22,7 +22,7 @@ theorem doprntf_eq_spec (fl : List Char) (w : WidthArg) (p : PrecArg) (c : FConv
     (h : (ds = [] ∧ x = 0) ∨
       MpfStr.GetOk c.base ds x (workDigits (fSpecParams fl w p c) fprec fexp) num den = true) :
     layoutModelF fl w p c fprec fexp neg ds x =
-      specF c (cFlags fl w) (cWidth w) (cPrecF p) (mpfSignificantDigits c.base fprec) neg ds x := by
+      specF c (cFlags fl w) (cWidth w) (cPrecF p) (MpfStr.maxDigits c.base fprec) neg ds x := by
   unfold layoutModelF
   simp only [fSpecParams_closed]
   apply layoutOn_closed
@@ -37,7 +37,7 @@ theorem doprntf_eq_spec (fl : List Char) (w : WidthArg) (p : PrecArg) (c : FConv
 theorem doprntf_eq_spec_any (fl : List Char) (w : WidthArg) (p : PrecArg) (c : FConv) (fprec : Nat) (fexp : Int)
     (neg : Bool) (ds : List Nat) (x : Int) (hz : ds = [] → x = 0) :
     layoutModelF fl w p c fprec fexp neg ds x =
-      specF c (cFlags fl w) (cWidth w) (cPrecF p) (mpfSignificantDigits c.base fprec) neg ds x := by
+      specF c (cFlags fl w) (cWidth w) (cPrecF p) (MpfStr.maxDigits c.base fprec) neg ds x := by
   unfold layoutModelF
   simp only [fSpecParams_closed]
   exact layoutOn_closed _ _ _ _ _ _ _ _ _ hz
@@ -46,7 +46,7 @@ theorem doprntf_eq_spec_any (fl : List Char) (w : WidthArg) (p : PrecArg) (c : F
 theorem doprntf_eq_spec_string (fl : List Char) (w : WidthArg) (p : PrecArg) (c : FConv) (fprec : Nat) (fexp : Int)
     (neg : Bool) (ds : List Nat) (x : Int) (hz : ds = [] → x = 0) :
     String.ofList (layoutModelF fl w p c fprec fexp neg ds x) =
-      String.ofList (specF c (cFlags fl w) (cWidth w) (cPrecF p) (mpfSignificantDigits c.base fprec) neg ds x) := by
+      String.ofList (specF c (cFlags fl w) (cWidth w) (cPrecF p) (MpfStr.maxDigits c.base fprec) neg ds x) := by
   rw [doprntf_eq_spec_any fl w p c fprec fexp neg ds x hz]
 
 -- non-vacuity: the hypothesis holds for 3.14159 asked to 8 digits (%f with precision 6 of a value with EXP = 1:
